@@ -78,10 +78,14 @@ def lam_min(SL, test, trial=None):
     with contextlib.redirect_stdout(io.StringIO()):
         A = SL.bilform_matrix(test, test)
     d = np.diag(A)
-    if np.any(d <= 0):
+    if np.any(d <= 0) or not np.all(np.isfinite(A)):
         return -1.0
     S = 0.5 * (A + A.T) / np.sqrt(np.outer(d, d))
-    return float(np.linalg.eigvalsh(S)[0])
+    try:
+        lam = float(np.linalg.eigvalsh(S)[0])
+    except np.linalg.LinAlgError:
+        return -1.0
+    return lam if np.isfinite(lam) else -1.0
 
 
 def _job(args):
@@ -191,7 +195,12 @@ def run(prop, tier, seed):
                 SL = SingleLayerOperator(mesh)
                 A = SL.bilform_matrix(elems, elems, use_mp=True)
             d = np.diag(A)
-            lam = float(np.linalg.eigvalsh(0.5 * (A + A.T) / np.sqrt(np.outer(d, d)))[0])
+            try:
+                lam = float(np.linalg.eigvalsh(0.5 * (A + A.T) / np.sqrt(np.outer(d, d)))[0]) if np.all(d > 0) and np.all(np.isfinite(A)) else -1.0
+            except np.linalg.LinAlgError:
+                lam = -1.0
+            if not np.isfinite(lam):
+                lam = -1.0
             recs.append({"cls": "random-mesh:%s" % name, "lam6": int(math.floor(1e6 * lam)), "n": len(elems), "curve": name})
             big.append({"curve": name, "n": len(elems), "lambda_min": lam})
     required = {r["cls"] for r in recs}
